@@ -545,9 +545,6 @@ func classify(sname string, view []op, held bool, snap, cur content, o obs, got,
 		}
 		return []string{fmt.Sprintf("%s:%s:%s", sname, o.kindName(), w)}
 	}
-	if held && snap != cur && sameKVs(got, expect(o, cur)) {
-		return []string{sname + ":snapshot-shows-later-writes"}
-	}
 	var out []string
 	add := func(c string) {
 		for _, x := range out {
@@ -612,6 +609,19 @@ func classify(sname string, view []op, held bool, snap, cur content, o obs, got,
 	}
 	if len(out) == 0 {
 		generic("differs")
+	}
+	// a held reader that shows exactly what a fresh reader should show now, and whose
+	// discrepancies have no structural explanation above: the snapshot follows the live store
+	if held && snap != cur && sameKVs(got, expect(o, cur)) {
+		explained := false
+		for _, c := range out {
+			if c == sname+":dup-key-in-batch" || c == sname+":prefix-ending-0xff" || c == sname+":seek-onto-deleted" {
+				explained = true
+			}
+		}
+		if !explained {
+			return []string{sname + ":snapshot-shows-later-writes"}
+		}
 	}
 	return out
 }
@@ -727,25 +737,27 @@ func goSnippet(sname string, path []op, reader string, o obs) string {
 	if sc.cfg == nil {
 		return ""
 	}
+	b.WriteString("// counterMergeOperator: store.MergeOperator whose FullMerge/PartialMerge add decimal counters (\"\" = 0)\n")
 	fmt.Fprintf(&b, "s, _ := registry.KVStoreConstructorByName(%q)(counterMergeOperator{}, %#v)\n", sc.ctor, sc.cfg("DIR"))
 	b.WriteString("w, _ := s.Writer()\n")
 	n := 0
 	var open []string
-	for _, p := range path {
+	for pi, p := range path {
 		switch p.Kind {
 		case 'b':
-			b.WriteString("b := w.NewBatch(); ")
+			bn := fmt.Sprintf("b%d", pi)
+			fmt.Fprintf(&b, "%s := w.NewBatch(); ", bn)
 			for _, e := range p.B {
 				switch e.Kind {
 				case 's':
-					fmt.Fprintf(&b, "b.Set([]byte(%q), []byte(%q)); ", keys[e.K], e.V)
+					fmt.Fprintf(&b, "%s.Set([]byte(%q), []byte(%q)); ", bn, keys[e.K], e.V)
 				case 'd':
-					fmt.Fprintf(&b, "b.Delete([]byte(%q)); ", keys[e.K])
+					fmt.Fprintf(&b, "%s.Delete([]byte(%q)); ", bn, keys[e.K])
 				case 'm':
-					fmt.Fprintf(&b, "b.Merge([]byte(%q), []byte(\"1\")); ", keys[e.K])
+					fmt.Fprintf(&b, "%s.Merge([]byte(%q), []byte(\"1\")); ", bn, keys[e.K])
 				}
 			}
-			b.WriteString("_ = w.ExecuteBatch(b); _ = b.Close()\n")
+			fmt.Fprintf(&b, "_ = w.ExecuteBatch(%s); _ = %s.Close()\n", bn, bn)
 		case 'o':
 			nm := fmt.Sprintf("r%d", n)
 			n++
@@ -1235,7 +1247,7 @@ func Run(r *mc.Run) {
 	} else {
 		scenarios = []scenario{
 			{name: "wide1", alphabet: wideAlphabet(2), depth: 1, wrapperDepth: 1, maxOpen: 1},
-			{name: "wide2", alphabet: wideAlphabet(0), depth: 2, wrapperDepth: 2, maxOpen: 1},
+			{name: "wide2", alphabet: wideAlphabet(0), depth: 2, wrapperDepth: 0, maxOpen: 1},
 			{name: "deep", alphabet: deepAlphabet(), depth: 4, wrapperDepth: 3, maxOpen: 2},
 		}
 	}
